@@ -19,8 +19,74 @@ def reference(text, index):
     return k + 1, index - starts[k]
 
 
+SOURCES = [
+    "plain text",
+    "a {{ b }} c",
+    "{{ 'x${y}z' }}",
+    "{{ \"a ${ b | upcase } c ${ d.e[0] }\" }}",
+    "{% assign t = 'p${ q }r${s}' %}{{ t }}",
+    "{% if a == 'u${v}' and b %}x{% endif %}",
+    "{% liquid\n  assign x = 'k${ l }m'\n  echo x\n%}",
+    "{{ (1..n) | join: '${sep}' }}",
+    "{# c #}{% comment %}x{% endcomment %}{% raw %}{{ r }}{% endraw %}{{ 'a${ 'b${c}' }' }}",
+    "é{{ 'ü${ x }ö' }}\n{%- for i in a.b['c d'] -%}{{ i }}{%- endfor ~%}",
+]
+
+
+def _children(tok):
+    """(child tokens in source order, description) of a token that owns tokens."""
+    for name in ("expression", "template", "statements"):
+        v = getattr(tok, name, None)
+        if isinstance(v, list) and v and all(hasattr(x, "start") and hasattr(x, "stop") for x in v):
+            return v, name
+    if hasattr(tok, "range_start") and hasattr(tok, "range_stop"):
+        return [tok.range_start, tok.range_stop], "range"
+    return [], ""
+
+
+def _check_nesting(tok, src, out, path):
+    kids, what = _children(tok)
+    prev = None
+    for k in kids:
+        out["checked"] += 1
+        if not (tok.start <= k.start and k.stop <= tok.stop and k.start <= k.stop):
+            out["violations"].append({"text": src, "index": k.start, "outcome": f"{type(k).__name__} [{k.start},{k.stop}) in {path}.{what} lies outside its {type(tok).__name__} [{tok.start},{tok.stop})"})
+        if prev is not None and k.start < prev.stop:
+            out["violations"].append({"text": src, "index": k.start, "outcome": f"{type(k).__name__} [{k.start},{k.stop}) in {path}.{what} starts before its predecessor ends ({prev.stop})"})
+        prev = k
+        _check_nesting(k, src, out, f"{path}.{what}")
+
+
+def run_tokens(out):
+    """Top-level tokens tile the source; the tokens a token owns nest inside its span, in order (recursively, template strings included)."""
+    from liquid2 import Environment
+    from liquid2.lexer import tokenize
+
+    env = Environment()
+    for src in SOURCES:
+        try:
+            toks = tokenize(env, src)
+        except Exception as e:  # noqa: BLE001
+            out["violations"].append({"text": src, "index": 0, "outcome": f"tokenize raised {type(e).__name__}: {e}"})
+            continue
+        pos = 0
+        for t in toks:
+            out["checked"] += 1
+            if t.start != pos or t.stop < t.start:
+                out["violations"].append({"text": src, "index": t.start, "outcome": f"{type(t).__name__} [{t.start},{t.stop}) does not continue the tiling at {pos}"})
+            pos = t.stop
+            _check_nesting(t, src, out, type(t).__name__)
+        if pos != len(src):
+            out["violations"].append({"text": src, "index": pos, "outcome": f"tokens end at {pos}, the source at {len(src)}"})
+
+
 def run():
     out = {"violations": [], "checked": 0, "error": None}
+    try:
+        run_tokens(out)
+    except Exception as e:  # noqa: BLE001
+        out["error"] = f"{type(e).__name__}: {e}"
+        return out
     try:
         from liquid2.exceptions import LiquidError
 
